@@ -2,15 +2,16 @@ import Logrange.Proofs.RdRngOffset
 import Logrange.Proofs.RdRngFwd
 import Logrange.Proofs.RdRngWin
 import Logrange.Proofs.RdOffsetBwd
+import Logrange.Proofs.RdRngOffsetBwd
 /-!
 # C16 with RANGE — the forward offset law over the ranged journal iterator
 
 "These hold with RANGE and WHERE applied": `head` with offset +k over a cursor whose leaf is `partition.JIterator` under the
-`fiterator` (range re-check + WHERE). Input contract as in `Props/C03Ranged.lean`: `WinSound j lo hi` (every in-range record
-lies inside its chunk's window; windows may be wider). The backward half (`tail − k`, `+k −k`) over the ranged iterator is
-stated below as `Prop`s (`tail_minus_k_ranged_stmt`, `plus_minus_k_ranged_stmt`) with kernel-evaluated instances; it needs the
-backward laws of the ranged iterator (`RGetBwdSpec`, `RNextBwdSpec` in `Proofs/RdRngDefs.lean`: stated, compared with the real
-iterator on every run through `it.spec`, not yet proved).
+`fiterator` (range re-check + WHERE), and the backward laws `tail − k`, `+k −k` on the same cursor. Input contract as in
+`Props/C03Ranged.lean`: `WinSound j lo hi` (every in-range record lies inside its chunk's window; windows may be wider).
+Hypotheses of the backward laws as for the un-ranged ones: no chunk id 0 (`PosIds`), at most 2^32 records per chunk
+(`bw_ChunkBound`), ids below the `tail` id (`IdsBelowTail`). All on the faithful `crsr.Offset` model (negative branch with the
+EOF special case, step loop, direction switches, fiterator cache reset) over the ranged iterator model.
 -/
 namespace Logrange.Props.C16Ranged
 open Logrange.Rd
@@ -40,18 +41,42 @@ theorem head_plus_k_ranged (name : Nat) (j : Journal) (w : Bool) (lo hi : Option
   unfold readN
   rw [hr, f', hf]; simp
 
-/-- the backward laws with RANGE: statements (not proved in general) -/
+theorem fwdAllR_eq (j : Journal) (w : Bool) (lo hi : Option Int) (hw : WinSound j lo hi) :
+    (wflat j).filter (passR lo hi w) = fwdAllR j w lo hi :=
+  rwn_filter_wflat (hw.toF (f := passR lo hi w) (fun r h => by
+    simp only [passR, Bool.and_eq_true] at h; exact h.2))
+
+/-- from ANY forward state, `Offset(−k)` moves back over `k` matching events (or to the start) -/
+theorem offset_backward_ranged (name : Nat) (j : Journal) (w : Bool) (lo hi : Option Int) (c : Cur) (i k : Nat)
+    (hs : Sorted j) (hp : PosIds j) (hcb : bw_ChunkBound j) (h : AbsR lo hi name j w false c i) :
+    ∃ i', AbsR lo hi name j w false (offset c (-(k : Int))) i' ∧
+      FLR lo hi j w i' = (FLR lo hi j w 0).drop (((FLR lo hi j w 0).length - (FLR lo hi j w i).length) - k) :=
+  rob_offset_neg lo hi rGetFwd rNextFwd rGetBwd rNextBwd hs hp hcb k h
+
 def tail_minus_k_ranged_stmt : Prop :=
   ∀ (name : Nat) (j : Journal) (w : Bool) (lo hi : Option Int) (k n : Nat), Sorted j → PosIds j → bw_ChunkBound j →
     IdsBelowTail j → WinSound j lo hi →
     readN n (offset (applyCorner (mkR lo hi name j w) true) (-(k : Int))) =
       ((fwdAllR j w lo hi).drop ((fwdAllR j w lo hi).length - k)).take n
 
+/-- **tail_minus_k with RANGE (and WHERE)**: `tail` with offset −k followed by a forward read returns exactly the last k
+events of the forward result (all of it if shorter). -/
+theorem tail_minus_k_ranged : tail_minus_k_ranged_stmt := by
+  intro name j w lo hi k n hs hp hcb ht hw
+  rw [rob_tail_minus_k lo hi rGetFwd rNextFwd rGetBwd rNextBwd name j w k n hs hp hcb ht, fwdAllR_eq j w lo hi hw]
+
 def plus_minus_k_ranged_stmt : Prop :=
   ∀ (name : Nat) (j : Journal) (w : Bool) (lo hi : Option Int) (m k n : Nat), Sorted j → PosIds j → bw_ChunkBound j →
     WinSound j lo hi → m + k ≤ (fwdAllR j w lo hi).length →
     readN n (offset (offset (readLoop m (applyCorner (mkR lo hi name j w) false) []).1 (k : Int)) (-(k : Int))) =
       readN n (readLoop m (applyCorner (mkR lo hi name j w) false) []).1
+
+/-- **plus_minus_k with RANGE (and WHERE)**: after any `m` delivered events, `+k` then `−k` (both inside the result) changes
+nothing. -/
+theorem plus_minus_k_ranged : plus_minus_k_ranged_stmt := by
+  intro name j w lo hi m k n hs hp hcb hw hk
+  exact rob_plus_minus_k lo hi rGetFwd rNextFwd rGetBwd rNextBwd name j w m k n hs hp hcb
+    (by rw [fwdAllR_eq j w lo hi hw]; exact hk)
 
 /-! ### instances evaluated by the kernel -/
 
